@@ -22,6 +22,10 @@ CHECKS = {
  "C19": dict(text="Lean theorems (16 + 12 generated obligations): noise off => exactly the requested engine call for any clock/draw/history; thresholds over any ordered ring (X iff x<p, Y iff p<=x<2p, Z iff 2p<=x<3p, none otherwise; the intervals partition [0,1) with lengths p,p,p,1-3p); rate (1-exp(-t/T1))/4 in [0,1/4) over Real.exp; only the qubit's own position is touched; every operation method applies noise first (decide over a table regenerated from quantum.py). Tie: real simulatedQubit on a real stabilizer register with time/random scripted, draws at the float thresholds.",
              note="Trusted: Lean kernel + standard axioms; floating-point rounding of np.exp beyond a 1-ulp comparison; 'operation on a qubit' = a method invoked on that simulated qubit (control side of two-qubit gates).",
              technique="Lean 4 proof (order arithmetic, Real.exp bounds) + AST-generated call table + differential correspondence", ref="4 C19"),
+
+ "C10": dict(text="Lean theorems (15), unbounded: server_framing (for all well-formed message lists and all cuttings of the byte stream into reads exactly the messages are handled, once each, in order, payloads intact; leftover = unfinished bytes), one_done_per_message and reply_on_arrival_connection for any number of connections and any interleaving of reads and suspended handlers, client_reassembly/client_session for adversarial recv prefixes, socket_stream (length-prefixed application socket refines a FIFO of whole messages for every send/recv interleaving and prefix choice); counterexample theorems for the pre-fix parser, router and socket. Tie: real NetQASMProtocol / SubroutineHandler / SimulaQronConnection._handle_reply / Socket over all cut positions of short streams and random chunkings, 1-3 connections.",
+             note="Trusted: Lean kernel + standard axioms; ctypes message sizes are read at run time and passed to the model as parameters; twisted/netqasm internals and payload codecs.",
+             technique="Lean 4 proof (parser-state-as-function-of-prefix induction, queue refinement) + differential correspondence over all chunkings", ref="4 C10"),
 }
 PENDING = {}
 def main():
